@@ -2,7 +2,9 @@
 import parseprops, parsecase, dump
 from common import show_str
 
-THEOREMS = ['Pylx.C01_strict', 'Pylx.C01_strict_of_delims', 'Pylx.C01_verbatim', 'Pylx.C01_top', 'Pylx.C01_contract']
+THEOREMS = ['Pylx.C01_strict', 'Pylx.C01_strict_of_delims', 'Pylx.C01_verbatim', 'Pylx.C01_top', 'Pylx.C01_contract',
+            'Pylx.C01_tolerant', 'Pylx.C01_tolerant_of_delims', 'Pylx.C01_tolerant_top', 'Pylx.C01_nested', 'Pylx.C01_tolerant_contract']
+PROOF_MODULES = ['C01', 'C01T']
 RULE = ('PARSE: every string of <= k atoms over the LaTeX-significant atom alphabets (default context and three custom contexts '
         'declaring macros/environments/specials with every standard argument type), random token soups; strict and tolerant; '
         'model vs implementation: full tree dump with positions; oracle on the implementation: top-level nodes tile the input, '
@@ -81,9 +83,9 @@ LEVEL_TEXT = ('Theorems about the parser model Pylx.run / Pylx.parseTop (strict 
               'top-level nodes tile [0, len] exactly, the reader ends at len, and every node of the tree lies inside the input, has its '
               'children (arguments before body) chained inside its span in document order without overlap, and chars/comment nodes carry '
               'exactly the source slice at their position; C01_verbatim — concatenated source slices of the top-level nodes equal the input; '
-              'C01_contract — the same contract for every parse_content sub-call. The tolerant-mode range/nesting clause is not yet a theorem: '
-              'it is covered by the correspondence and the oracle (kept visible as the remaining obligation). The model is tied to the parser by '
+              'C01_contract — the same contract for every parse_content sub-call; C01_tolerant — for whatever the tolerant parser returns on an '
+              'arbitrary string, every node lies inside the input and its children are chained inside its span (all recovery paths). The model is tied to the parser by '
               'comparing full tree dumps with positions on bounded-exhaustive atom strings and random soups under four contexts.')
 LEVEL_NOTE = ('closed world: standard argument types + legacy verbatim parsers; parser deltas not modelled (identity for these specs); tokenizer '
-              'model trusted via C11 correspondence; tolerant-mode clause by correspondence/oracle only; Lean kernel + propext/Classical.choice/Quot.sound')
+              'model trusted via C11 correspondence; Lean kernel + propext/Classical.choice/Quot.sound')
 TECHNIQUE = 'Lean 4 proof (invariants over the fuel-indexed parser model) + PARSE correspondence + tiling oracle'
